@@ -126,7 +126,14 @@ func boolFactsOfBlock(b *ssa.BasicBlock, ctx bool) []BoolFact {
 		// p() known true/false, p a predicate function of the same package: what its returning that value implies
 		if cl, ok := subj.(*ssa.Call); ok && !seen[cl] {
 			seen[cl] = true
-			out = append(out, predicateImplies(cl, val, 0)...)
+			out = append(out, predicateImplies(cl, -1, val, 0)...)
+		}
+		// value, found := lookup(...): the boolean result of a multi-result helper
+		if ex, ok := subj.(*ssa.Extract); ok && !seen[ex] {
+			if cl, ok := ex.Tuple.(*ssa.Call); ok {
+				seen[ex] = true
+				out = append(out, predicateImplies(cl, ex.Index, val, 0)...)
+			}
 		}
 		// a && b  ==  phi [false, ..., b]  known true  =>  b true, and the facts of b's block
 		// a || b  ==  phi [true, ..., b]   known false =>  b false, and the facts of b's block
@@ -650,16 +657,22 @@ func ErrDerives(v ssa.Value, src ValPred) bool {
 // callee on every return that can yield val (the conjuncts of `return a && b` for true, a guard's negation for an early
 // `return false`, ...). Only facts common to all such returns are reported (compared by value identity, so in practice
 // the single-expression predicates that refactorings extract).
-func predicateImplies(cl *ssa.Call, val bool, depth int) []BoolFact {
+func predicateImplies(cl *ssa.Call, ridx int, val bool, depth int) []BoolFact {
 	callee := cl.Call.StaticCallee()
 	if callee == nil || len(callee.Blocks) == 0 || depth > 2 {
 		return nil
 	}
 	res := callee.Signature.Results()
-	if res.Len() != 1 {
+	if ridx < 0 {
+		if res.Len() != 1 {
+			return nil
+		}
+		ridx = 0
+	}
+	if ridx >= res.Len() {
 		return nil
 	}
-	if b, ok := res.At(0).Type().Underlying().(*types.Basic); !ok || b.Kind() != types.Bool {
+	if b, ok := res.At(ridx).Type().Underlying().(*types.Basic); !ok || b.Kind() != types.Bool {
 		return nil
 	}
 	rootPkg := func(f *ssa.Function) *ssa.Package {
@@ -690,7 +703,7 @@ func predicateImplies(cl *ssa.Call, val bool, depth int) []BoolFact {
 		subj, pol := BoolSubject(v)
 		fs := append([]BoolFact{{subj, val == pol}}, boolFactsOfBlock(at, false)...)
 		if c2, ok := subj.(*ssa.Call); ok {
-			fs = append(fs, predicateImplies(c2, val == pol, depth+1)...)
+			fs = append(fs, predicateImplies(c2, -1, val == pol, depth+1)...)
 		}
 		alts = append(alts, fs)
 	}
@@ -698,8 +711,8 @@ func predicateImplies(cl *ssa.Call, val bool, depth int) []BoolFact {
 		if len(b.Instrs) == 0 {
 			continue
 		}
-		if ret, ok := b.Instrs[len(b.Instrs)-1].(*ssa.Return); ok && len(ret.Results) == 1 {
-			expand(ret.Results[0], b, map[ssa.Value]bool{})
+		if ret, ok := b.Instrs[len(b.Instrs)-1].(*ssa.Return); ok && ridx < len(ret.Results) {
+			expand(ret.Results[ridx], b, map[ssa.Value]bool{})
 		}
 	}
 	if len(alts) == 0 {
